@@ -808,10 +808,13 @@ impl Paragraph {
 
     /// Remove the given field from the paragraph.
     pub fn remove(&mut self, key: &str) {
-        for mut entry in self.entries() {
-            if entry.key().as_deref() == Some(key) {
-                entry.detach();
-            }
+        // Collect first: detaching a node invalidates iteration over its siblings.
+        let entries = self
+            .entries()
+            .filter(|entry| entry.key().as_deref() == Some(key))
+            .collect::<Vec<_>>();
+        for mut entry in entries {
+            entry.detach();
         }
     }
 
